@@ -151,7 +151,7 @@ func galVal(v reflect.Value, multiMap *bool) string {
 		return "(VMap " + gal.Bool(v.IsNil()) + " " + galKd(t.Key()) + " " + gal.Str(t.String()) + " " + gal.List(parts) + ")"
 	case reflect.Struct:
 		if t == timeType {
-			return "VTime"
+			return "(VTime " + gal.Bool(v.IsZero()) + ")"
 		}
 		parts := make([]string, v.NumField())
 		for i := range parts {
@@ -351,7 +351,7 @@ func (w *walkCall) run() (err error, panicked bool, ptext string) {
 // ---------- canonical projection of an error text ----------
 const us = "\x1f"
 
-var customBodyRe = regexp.MustCompile(`^(explain:|说明:) (M\d|标\d|FN)`)
+var customBodyRe = regexp.MustCompile(`^(explain:|说明:) (M\d|T\d|标\d|FN)`)
 var ruleErrRe = regexp.MustCompile(`^valid "(\w+)" is not ok`)
 
 func echoFilter(e string) string {
@@ -400,24 +400,31 @@ func canonClause(t string) string {
 	return path + us + "-" + us + kind
 }
 
-func canonErr(err error) []string {
+func canonErr(err error, sortMembers bool) []string {
 	parts := strings.Split(err.Error(), valid.ErrEndFlag)
 	out := make([]string, len(parts))
 	for i, p := range parts {
 		out[i] = canonClause(p)
+		// map input: the members of a group come in Go map order; compared as a set
+		if sortMembers && strings.HasPrefix(out[i], us+"-"+us+"G:") {
+			j := strings.Index(out[i][6:], ":") + 7
+			ms := strings.Split(out[i][j:], ", ")
+			sort.Strings(ms)
+			out[i] = out[i][:j] + strings.Join(ms, ", ")
+		}
 	}
 	return out
 }
 
 // galObs prints the observation
-func galObs(err error, panicked bool) (string, []string) {
+func galObs(err error, panicked bool, sortMembers bool) (string, []string) {
 	if panicked {
 		return "ObsPanic", nil
 	}
 	if err == nil {
 		return "ObsNil", nil
 	}
-	cs := canonErr(err)
+	cs := canonErr(err, sortMembers)
 	return "(ObsErr " + gal.StrList(cs) + ")", cs
 }
 
@@ -437,7 +444,7 @@ func (w *walkCall) caseTerm(specs []string) (term string, desc map[string]interf
 		entry = "(EUrl " + w.galCfg() + " " + galRM(w.Rules) + " " + src + ")"
 	}
 	err, panicked, ptext := w.run()
-	obs, _ := galObs(err, panicked)
+	obs, _ := galObs(err, panicked, w.Entry == "map")
 	term = "CWalk " + entry + " " + gal.Bool(!multi) + " " + obs + " " + gal.List(specs)
 	desc = map[string]interface{}{"entry": w.Entry, "src": fmt.Sprintf("%#v", w.Src), "src_type": fmt.Sprintf("%T", w.Src)}
 	if w.Entry == "var" {
